@@ -62,13 +62,13 @@ func c14Domains(e *domEnv) []*msgDom {
 	var ds []*msgDom
 	ds = append(ds, &msgDom{Name: "aol.MsgCreateTopicRequest", New: func() sdk.Msg { return &aoltypes.MsgCreateTopicRequest{} }, Fields: []fdom{
 		sv("topic_name", func(m sdk.Msg, v string) { m.(*aoltypes.MsgCreateTopicRequest).TopicName = v }, "a", "b"),
-		sv("description", func(m sdk.Msg, v string) { m.(*aoltypes.MsgCreateTopicRequest).Description = v }, "", "x", "y", " x", "x ", "x\n", "\tx"),
+		sv("description", func(m sdk.Msg, v string) { m.(*aoltypes.MsgCreateTopicRequest).Description = v }, "", "x", "y", " x", "x ", "x\n", "\tx", "a\xffb", "a\xfeb"),
 		sv("owner_address", func(m sdk.Msg, v string) { m.(*aoltypes.MsgCreateTopicRequest).OwnerAddress = v }, A, B),
 	}})
 	ds = append(ds, &msgDom{Name: "aol.MsgAddWriterRequest", New: func() sdk.Msg { return &aoltypes.MsgAddWriterRequest{} }, Fields: []fdom{
 		sv("topic_name", func(m sdk.Msg, v string) { m.(*aoltypes.MsgAddWriterRequest).TopicName = v }, "a", "b"),
 		sv("moniker", func(m sdk.Msg, v string) { m.(*aoltypes.MsgAddWriterRequest).Moniker = v }, "", "x", "y"),
-		sv("description", func(m sdk.Msg, v string) { m.(*aoltypes.MsgAddWriterRequest).Description = v }, "", "x", "y", " x", "x\n"),
+		sv("description", func(m sdk.Msg, v string) { m.(*aoltypes.MsgAddWriterRequest).Description = v }, "", "x", "y", " x", "x\n", "a\xffb", "a\xfeb"), // + byte strings that are not UTF-8
 		sv("writer_address", func(m sdk.Msg, v string) { m.(*aoltypes.MsgAddWriterRequest).WriterAddress = v }, W, B),
 		sv("owner_address", func(m sdk.Msg, v string) { m.(*aoltypes.MsgAddWriterRequest).OwnerAddress = v }, A, B),
 	}})
@@ -165,6 +165,34 @@ func c14Domains(e *domEnv) []*msgDom {
 			d.Authentications = []didtypes.VerificationRelationship{didtypes.NewVerificationRelationshipDedicated(didtypes.VerificationMethod{Id: id, Controller: ctl})}
 		}})
 	}
+	// text fields holding byte sequences that are not UTF-8 (they differ on the wire; JSON would replace both by U+FFFD)
+	for _, bad := range []string{"a\xffb", "a\xfeb"} {
+		bad := bad
+		for _, where := range []string{"service-endpoint", "method-controller", "context", "key-type"} {
+			where := where
+			docField.Classes = append(docField.Classes, fclass{Label: fmt.Sprintf("D5+%s=%q", where, bad), Odd: true, Set: func(m sdk.Msg) {
+				setDocShape(m, "D5")
+				var d *didtypes.DIDDocument
+				switch x := m.(type) {
+				case *didtypes.MsgCreateDIDRequest:
+					d = x.Document
+				case *didtypes.MsgUpdateDIDRequest:
+					d = x.Document
+				}
+				switch where {
+				case "service-endpoint":
+					d.Services[0].ServiceEndpoint = "https://example.org/" + bad
+				case "method-controller":
+					d.VerificationMethods[0].Controller = bad
+				case "context":
+					c := didtypes.JSONStringOrStrings{didtypes.ContextDIDV1, "https://ctx.example/" + bad}
+					d.Contexts = &c
+				case "key-type":
+					d.VerificationMethods = append(d.VerificationMethods, &didtypes.VerificationMethod{Id: d.Id + "#extra", Type: "Type" + bad, Controller: d.Id, PublicKeyBase58: d.VerificationMethods[0].PublicKeyBase58})
+				}
+			}})
+		}
+	}
 	docField.Classes = append(docField.Classes, fclass{Label: "D1+method-controller-omitted", Odd: true, Set: func(m sdk.Msg) {
 		setDocShape(m, "D1") // the same document with the verification method's controller left empty is a different message
 		switch x := m.(type) {
@@ -240,7 +268,7 @@ func c14Domains(e *domEnv) []*msgDom {
 		sv("id", func(m sdk.Msg, v string) { m.(*pnfttypes.MsgCreateDenomRequest).Id = v }, "a", "b"),
 		sv("name", func(m sdk.Msg, v string) { m.(*pnfttypes.MsgCreateDenomRequest).Name = v }, "x", "y"),
 		sv("symbol", func(m sdk.Msg, v string) { m.(*pnfttypes.MsgCreateDenomRequest).Symbol = v }, "x", "y"),
-		sv("description", func(m sdk.Msg, v string) { m.(*pnfttypes.MsgCreateDenomRequest).Description = v }, "", "x", "y"),
+		sv("description", func(m sdk.Msg, v string) { m.(*pnfttypes.MsgCreateDenomRequest).Description = v }, "", "x", "y", "a\xffb", "a\xfeb"),
 		sv("uri", func(m sdk.Msg, v string) { m.(*pnfttypes.MsgCreateDenomRequest).Uri = v }, "", "x"),
 		sv("uri_hash", func(m sdk.Msg, v string) { m.(*pnfttypes.MsgCreateDenomRequest).UriHash = v }, "", "x"),
 		sv("data", func(m sdk.Msg, v string) { m.(*pnfttypes.MsgCreateDenomRequest).Data = v }, "", "x"),
